@@ -20,6 +20,7 @@ import (
 )
 
 type Worker struct {
+	noModelCache bool
 	eng   *Engine
 	tt    *TermTable
 	sv    *Solver
